@@ -324,7 +324,10 @@ func (ex *Exec) initGlobal(gl *ssa.Global, l *Loc) {
 		l.V = ex.errIface(&ErrObj{Kind: "errors", Msg: "unexpected EOF"})
 		return
 	}
-	if strings.HasPrefix(path, ex.E.ModPath) && !isGeneratedPBPkg(gl.Pkg) {
+	if strings.HasPrefix(path, ex.E.ModPath) {
+		if ex.inPBFile(gl.Pos()) {
+			ex.poison(l, key)
+		}
 		return // initialised by the package's init function
 	}
 	if strings.HasSuffix(gl.Name(), "init$guard") {
